@@ -1,4 +1,5 @@
 import GmQuic.Lemmas.RecoveryBal
+import GmQuic.Lemmas.RecoverySorted
 /-!
 # C13 — loss detection and congestion control (qcongestion, NewReno)
 
@@ -142,22 +143,34 @@ theorem lost_needs_later_ack_fails : ¬ LostNeedsLaterAck := by
   rw [hnone] at hla
   cases hla
 
-/-- what does hold (for every state, reachable or not): when no in-flight packet of the space is older than the
-time threshold, nothing is declared lost unless the sent list holds at least three entries between the packet and
-the entry of the largest acknowledged number -/
-theorem lost_needs_later_ack_partial (s s' : St) (e ld : Nat) (lost : List Nat)
-    (h : detectLost s e ld = .ok (s', lost))
-    (hyoung : ∀ p ∈ (getSp s e).sent, ¬ p.ts + ld + (getSp s e).mad < s.now) :
+/-- what does hold, for every state whose sent list is sorted by packet number (C07): a packet is declared lost
+only if it was `Inflight` and is older than the time threshold, or a packet at least three numbers later has been
+covered by an ACK frame (`largest_acked ≥ pn + 3`) -/
+theorem lost_needs_threshold_pn (s s' : St) (e ld : Nat) (lost : List Nat)
+    (h : detectLost s e ld = .ok (s', lost)) (hs : Sorted (getSp s e).sent) :
     ∀ pn ∈ lost, ∃ p ∈ (getSp s e).sent, p.pn = pn ∧ p.st = PSt.I ∧
-      ∃ idx, idx + 3 ≤ bsearch (getSp s e).sent ((getSp s e).la.getD 0) := by
+      (p.ts + ld + (getSp s e).mad < s.now ∨ ∃ la, (getSp s e).la = some la ∧ pn + 3 ≤ la) :=
+  detectLost_pn h hs
+
+/-- the full clause holds exactly when the time threshold does not fire: if no packet of the space is older than
+`loss_delay + max_ack_delay`, every packet declared lost has a later acknowledged packet, three or more numbers ahead -/
+theorem lost_needs_later_ack_partial (s s' : St) (e ld : Nat) (lost : List Nat)
+    (h : detectLost s e ld = .ok (s', lost)) (hs : Sorted (getSp s e).sent)
+    (hyoung : ∀ p ∈ (getSp s e).sent, ¬ p.ts + ld + (getSp s e).mad < s.now) :
+    ∀ pn ∈ lost, ∃ la, (getSp s e).la = some la ∧ pn + 3 ≤ la := by
   intro pn hpn
-  obtain ⟨p, hp, h1, h2, h3⟩ := lost_needs_threshold s s' e ld lost h pn hpn
-  refine ⟨p, hp, h1, h2, ?_⟩
+  obtain ⟨p, hp, _, _, h3⟩ := detectLost_pn h hs pn hpn
   rcases h3 with h3 | h3
   · exact absurd h3 (hyoung p hp)
   · exact h3
 
-example : ∃ (s : St), ∀ p ∈ (getSp s 0).sent, ¬ p.ts + 5 + (getSp s 0).mad < s.now := ⟨{}, by simp [getSp]⟩
+/-- non-vacuity: five packets, the last acknowledged, nothing old: 0 and 1 are declared lost, `largest_acked = 4` -/
+def spW : Space :=
+  { la := some 4, sent := (List.range 5).map fun k =>
+      { pn := k, ts := 100, elic := true, cc := true, size := 1200, st := if k == 4 then PSt.A else PSt.I } }
+example : (detectLost { now := 100, s2 := spW } 2 50).toOption.map (·.2) = some [0, 1] := by decide
+example : Sorted (getSp { now := 100, s2 := spW } 2).sent := by
+  unfold Sorted; decide
 
 /-! ## FALSE of the unchanged code: the probe timeout does not double -/
 
